@@ -266,12 +266,50 @@ def ctree(t):
 def implicit_problem(rng):
     """returns (tree, captured-factory, x_min, x_max, description, root_at_end)"""
     from GTC import core
-    p = rng.choice(['lin', 'lin', 'lin_end_lo', 'lin_end_hi', 'sq', 'cube', 'exp', 'affine', 'tanh', 'ratio', 'nosign', 'badrange',
-                    'plain', 'two', 'sin', 'dep', 'flat', 'cube0', 'cube0', 'atan', 'cube_mid', 'quint'])
+    p = rng.choice(['lin', 'lin', 'lin_end_lo', 'lin_end_hi', 'sq', 'cube', 'exp', 'affine', 'tanh', 'ratio', 'nosign', 'badrange', 'badrange',
+                    'plain', 'two', 'sin', 'dep', 'flat', 'cube0', 'cube0', 'atan', 'cube_mid', 'quint',
+                    'neg_both', 'neg_both', 'pos_both', 'declin', 'decexp', 'zero_end', 'zero_end', 'ident_eps', 'ident_eps',
+                    'newton_eps', 'step_eps', 'underflow', 'noconv'])
     a0 = rng.choice([1.0, 2.0, 2.5, rng.uniform(0.5, 4.0)]); ua = ru(rng)
     mk = lambda: [core.ureal(a0, ua), core.ureal(rng.choice([0.5, 1.5, rng.uniform(0.2, 2.0)]), ru(rng))]
-    end = False
-    if p == 'lin': t = sub(V, cap(0)); lo, hi = a0 - rng.choice([1.0, 0.5, 3.0]), a0 + rng.choice([2.0, 0.25, 1.0])
+    end = False; eps = None
+    E = 1e-13
+    if p == 'neg_both':       # no root, fn NEGATIVE at both ends (the sign test must look at the product, not at one sign)
+        t, lo, hi = rng.choice([(sub(un('neg', mul(V, V)), cap(0)), -1.0, 2.0),          # -(v*v) - a
+                                (sub(cap(0), un('exp', V)), math.log(a0) + 0.5, math.log(a0) + 3.0),   # a - exp(v) above its root
+                                (sub(V, cap(0)), a0 - 3.0, a0 - 0.5),                     # v - a below its root
+                                (sub(num(-1.0), mul(cap(1), mul(V, V))), -2.0, 1.0)])
+    elif p == 'pos_both':     # no root, fn positive at both ends
+        t, lo, hi = rng.choice([(sub(V, cap(0)), a0 + 0.5, a0 + 3.0), (sub(cap(0), V), a0 - 3.0, a0 - 0.25),
+                                (sub(un('exp', V), mul(num(1e-3), cap(0))), 1.0, 2.0)])
+    elif p == 'declin':       # decreasing: fl > 0 swaps lower and upper
+        t = sub(cap(0), V); lo, hi = a0 - rng.choice([1.0, 0.5, 3.0]), a0 + rng.choice([2.0, 0.25])
+    elif p == 'decexp':
+        t = sub(cap(0), un('exp', V)); lo, hi = -3.0, 3.0
+    elif p == 'zero_end':     # epsilon <= 0 disables the |f| < epsilon exits: an exact zero at one end meets fl*fu >= 0 with either sign at the other
+        c = rng.choice([1.0, -2.0]); s_ = rng.choice([1, -1]); at_lo = rng.random() < 0.5
+        t = sub(V, num(c)) if s_ > 0 else sub(num(c), V)
+        lo, hi = (c, c + 2.0) if at_lo else (c - 2.0, c)
+        eps = rng.choice([0.0, -1.0, 0.0])
+    elif p == 'ident_eps':    # fn = v: |fl| resp. |fu| below / AT / above epsilon, both signs
+        import struct
+        t = V if rng.random() < 0.5 else add(V, mul(num(0.0), cap(0)))
+        e_ = rng.choice([E, 2.0 ** -20])
+        m = rng.choice([e_, math.nextafter(e_, 0.0), math.nextafter(e_, 1.0), 0.0, 0.5 * e_, 2 * e_])
+        which = rng.choice(['lo+', 'lo-', 'hi+', 'hi-'])
+        lo, hi = {'lo+': (m, 1.0), 'lo-': (-m, 1.0), 'hi+': (-1.0, m), 'hi-': (-1.0, -m)}[which]
+        eps = e_
+    elif p == 'newton_eps':   # fn = v on [-1, 1+2e]: the first Newton step is exactly e: abs(dx) <= epsilon at / around the boundary
+        e_ = 2.0 ** -20; t = V; lo, hi = -1.0, 1.0 + 2 * e_
+        eps = rng.choice([e_, math.nextafter(e_, 0.0), math.nextafter(e_, 1.0)])
+    elif p == 'step_eps':     # a step: bisection only; the interval halves 2, 1, 1/2, ... and meets epsilon exactly
+        t = sub(un('tanh', mul(num(200.0), sub(V, num(0.3)))), mul(num(1e-3), cap(1))); lo, hi = -1.0, 3.0
+        e_ = rng.choice([2.0 ** -3, 2.0 ** -6]); eps = rng.choice([e_, math.nextafter(e_, 0.0), math.nextafter(e_, 1.0)])
+    elif p == 'underflow':    # a sign change whose product fl*fu underflows to -0.0: -0.0 >= 0.0 holds
+        t = mul(num(1e-200), V); lo, hi = -1.0, 1.0; eps = rng.choice([1e-300, 1e-13])
+    elif p == 'noconv':       # negative epsilon: no convergence test can succeed -> 100 iterations -> RuntimeError
+        t = sub(V, cap(0)); lo, hi = a0 - 1.0, a0 + 2.5; eps = -1.0
+    elif p == 'lin': t = sub(V, cap(0)); lo, hi = a0 - rng.choice([1.0, 0.5, 3.0]), a0 + rng.choice([2.0, 0.25, 1.0])
     elif p == 'lin_end_lo': t = sub(V, cap(0)); lo, hi = a0, a0 + 2.0; end = True
     elif p == 'lin_end_hi': t = sub(V, cap(0)); lo, hi = a0 - 2.0, a0; end = True
     elif p == 'sq': t = sub(mul(V, V), cap(0)); lo, hi = 0.0, a0 + 1.0
@@ -281,7 +319,7 @@ def implicit_problem(rng):
     elif p == 'tanh': t = sub(un('tanh', mul(num(5.0), V)), mul(num(0.1), cap(1))); lo, hi = -2.0, 3.0
     elif p == 'ratio': t = sub(div(V, cap(1)), cap(0)); lo, hi = 0.0, 25.0
     elif p == 'nosign': t = add(mul(V, V), cap(0)); lo, hi = -1.0, 2.0
-    elif p == 'badrange': t = sub(V, cap(0)); lo, hi = rng.choice([(3.0, 3.0), (4.0, 1.0)])
+    elif p == 'badrange': t = sub(V, cap(0)); lo, hi = rng.choice([(3.0, 3.0), (4.0, 1.0), (a0, a0), (a0, a0), (a0, math.nextafter(a0, 9.0))])   # x_max == x_min AT a root: only the range test can refuse it
     elif p == 'plain': t = num(rng.choice([1.0, 0.0])); lo, hi = 0.0, 1.0
     elif p == 'two': t = mul(sub(V, cap(0)), sub(V, cap(1))); lo, hi = -1.0, 6.0
     elif p == 'sin': t = sub(un('sin', V), mul(num(0.2), cap(1))); lo, hi = -1.0, 1.2
@@ -299,15 +337,15 @@ def implicit_problem(rng):
         t = sub(mul(V, cap(1)), cap(0)); lo, hi = -2.0, 40.0
         mk = lambda: (lambda d: [d[0] + d[1], core.result(d[1] * 2.0 + core.ureal(0.3, 0.2))])(
             [core.ureal(a0, ua, independent=False), core.ureal(0.7, 0.3, independent=False)])
-    return t, mk, lo, hi, p, end
+    return t, mk, lo, hi, p, end, eps
 
 def gen_implicit(rng, C, k):
     from GTC import core, function, context
     ctx = 700 + k
     new_context(ctx)
-    t, mk, lo, hi, p, end = implicit_problem(rng)
+    t, mk, lo, hi, p, end, eps = implicit_problem(rng)
     caps = mk()
-    eps = rng.choice([1e-13, 1e-13, 1e-13, 1e-6, 1e-15])
+    if eps is None: eps = rng.choice([1e-13, 1e-13, 1e-13, 1e-6, 1e-15])
     ne = context._context._elementary_id_counter
     with record_math() as rec:
         obs, r = observe(lambda: function.implicit(lambda v: ev_tree(t, v, caps, core), lo, hi, eps))
@@ -334,7 +372,7 @@ def correspondence(rng, tier):
     for k in range(150 if q else 2500): gen_mod(rng, C, k)
     for k in range(80 if q else 1200): gen_merge(rng, C, k)
     for k in range(170 if q else 3000): gen_mul2(rng, C, k)
-    for k in range(80 if q else 1200): gen_implicit(rng, C, k)
+    for k in range(130 if q else 2000): gen_implicit(rng, C, k)
     vals, errs = coq_eval_cases('C20', HEADER + CASE2, C.terms, per_file=30 if q else 120, timeout=900)
     for e in errs:
         mism.append({'kind': 'coqc-failed', 'file': e['file'], 'output': e['output'][-1200:]})
@@ -436,8 +474,34 @@ def check_implicit(fam, a0, ua, lo, hi, dep=False):
         pass
     return None
 
+PLAIN = {'lin': lambda v, a: v - a, 'declin': lambda v, a: a - v, 'sq': lambda v, a: v * v - a, 'negsq': lambda v, a: -(v * v) - a,
+         'exp': lambda v, a: math.exp(v) - a, 'decexp': lambda v, a: a - math.exp(v)}
+
+def check_implicit_bracket(fam, a0, ua, lo, hi, eps=1e-13):
+    """RuntimeError iff there is no sign change between the bracket ends (both signs); the end values are kept well away
+    from zero (the bracket-end root is the known finding) and the functions are monotone on the bracket or have no root"""
+    from GTC import core, function
+    new_context(45)
+    a = core.ureal(a0, ua)
+    g = PLAIN[fam]
+    fn = {'lin': lambda v: v - a, 'declin': lambda v: a - v, 'sq': lambda v: v * v - a, 'negsq': lambda v: -(v * v) - a,
+          'exp': lambda v: core.exp(v) - a, 'decexp': lambda v: a - core.exp(v)}[fam]
+    fl, fu = g(lo, a0), g(hi, a0)
+    if not (lo < hi) or min(abs(fl), abs(fu)) < 1e-3: return None
+    if fam in ('sq', 'negsq') and lo < 0 < hi: return None          # not monotone there
+    change = (fl < 0) != (fu < 0)
+    try:
+        x = function.implicit(fn, lo, hi, eps)
+    except RuntimeError:
+        return 'RuntimeError although fn changes sign on the bracket: fn(%r)=%r, fn(%r)=%r' % (lo, fl, hi, fu) if change else None
+    if not change:
+        return 'no RuntimeError for a bracket without sign change: fn(%r)=%r, fn(%r)=%r, returned x=%r' % (lo, fl, hi, fu, x.x)
+    if not (lo <= x.x <= hi) or abs(g(x.x, a0)) > 1e-6 * max(1.0, abs(a0)): return 'implicit returned %r, fn there = %r' % (x.x, g(x.x, a0))
+    return None
+
 def run_check(f):
     k = f['kind']
+    if k == 'implicit_bracket': return check_implicit_bracket(f['family'], f['a0'], f['ua'], f['lo'], f['hi'], f.get('eps', 1e-13))
     if k == 'mul2': return check_mul2_real(f['x1'], f['u1'], f['x2'], f['u2'], f['estimated'])
     if k in ('mod', 'fmod'): return check_mod(f['x'], f['u'], f['y'], k)
     if k == 'merge': return check_merge(f['x'], f['ua'], f['ub'], f['delta'], f['tol'])
@@ -457,6 +521,12 @@ def search(rng, tier, broken):
                  'y': rng.choice([3.0, -3.0, 2.5, -2.5, rng.uniform(0.1, 5), -rng.uniform(0.1, 5)])}
         elif c < 0.8:
             f = {'kind': 'merge', 'x': rv(rng), 'ua': ru(rng), 'ub': ru(rng), 'delta': rng.choice([0.0, 3e-14, 1e-12, 0.25]), 'tol': rng.choice([1e-13, 1e-6])}
+        elif c < 0.9:
+            fam = rng.choice(['lin', 'declin', 'sq', 'negsq', 'exp', 'decexp'])
+            a0 = rng.uniform(0.5, 4.0)
+            lo = rng.uniform(-6.0, 6.0) if fam not in ('sq', 'negsq') else rng.choice([rng.uniform(0.0, 4.0), rng.uniform(-4.0, -0.5)])
+            hi = lo + rng.choice([0.25, 1.0, 3.0, rng.uniform(0.1, 8.0)])
+            f = {'kind': 'implicit_bracket', 'family': fam, 'a0': a0, 'ua': ru(rng), 'lo': lo, 'hi': hi, 'eps': rng.choice([1e-13, 1e-9])}
         else:
             f = {'kind': 'implicit', 'family': rng.choice(['lin', 'sq', 'exp']), 'a0': rng.uniform(0.5, 4.0), 'ua': ru(rng),
                  'lo': rng.choice([0.01, -0.5 if False else 0.05]), 'hi': rng.uniform(2.5, 6.0), 'dep': rng.random() < 0.5}
